@@ -26,9 +26,9 @@ def render(l):
         if l["flow"] == "ttb":
             q += "    flow: QGridLayout.TopToBottom\n"
             if l["count"]:
-                q += "    rows: %d\n" % l["count"]
+                q += "    rows: %s\n" % l["count"]
         elif l["count"]:
-            q += "    columns: %d\n" % l["count"]
+            q += "    columns: %s\n" % l["count"]
     for i, k in enumerate(l["kids"]):
         q += "    QLabel { id: k%d" % i
         for key, name in (("row", "row"), ("col", "column"), ("rs", "rowStretch"), ("cs", "columnStretch"), ("rmh", "rowMinimumHeight"), ("cmw", "columnMinimumWidth")):
@@ -115,10 +115,12 @@ def run(chk):
         if not spots:
             continue
         key, i = r.choice(spots)
-        for off in (2 ** 32, 2 ** 33, -2 ** 32, 2 ** 40, 2 ** 31 + 2 ** 32):
+        for off in (2 ** 32, 2 ** 33, -2 ** 32, 2 ** 40, 2 ** 31 + 2 ** 32) + ((-l["count"], -l["count"] - 1) if i is None else ()):      # a count of 0 / -1 too
             l2 = json.loads(json.dumps(l))
             if i is None:
                 l2["count"] = l2["count"] + off
+                if l2["count"] == 0:
+                    l2["count"] = "0"       # (render() skips a falsy count)
             else:
                 l2["kids"][i][key] = l2["kids"][i][key] + off
             wide_reqs.append({"id": len(wide_reqs), "src": render(l2), "type_name": "Doc", "modes": ["generate"]})
